@@ -71,6 +71,8 @@ func hexBytesNat(b []byte) string {
 
 func verClass(v string) int {
 	switch {
+	case v >= "0.15.0": // above core.LatestVer (0.14.1): CheckBlockVersion refuses it
+		return 3
 	case v >= "0.14.1":
 		return 2
 	case v >= "0.14.0":
@@ -246,6 +248,8 @@ func modelErrClass(err error) string {
 	switch {
 	case has("panic:"):
 		return "panic"
+	case has("unsupported block version"):
+		return "err:version"
 	case has("expected block #"):
 		return "err:blockNumber"
 	case has("parent hash does not match"):
